@@ -5,7 +5,8 @@
 # the changed copy, and on confirmation stores it under /verif/seeded/PROP_X/.
 export GOFLAGS=-mod=mod GOPROXY=off GOSUMDB=off GOTOOLCHAIN=local; unset GOWORK
 prop=$1; x=$2; dest=$3; pkg=$4; re=$5; shift 5
-src=/tmp/seed_$prop/$x
+src=${SEED_SRC:-/tmp/seed_$prop/$x}
+as=${SEED_AS:-$x}
 w=$(mktemp -d /tmp/sv.XXXXXX); rmdir $w
 git -C /repo worktree add -q --detach $w HEAD || exit 2
 cleanup() { git -C /repo worktree remove --force $w 2>/dev/null; }
@@ -35,9 +36,9 @@ for pp in $prop "$@"; do
   [ $code = 1 ] && det="$det $pp"
 done
 if [ "$bres" = pass ] && [ "$sres" = pass ] && [ "$wres" = FAIL ]; then
-  d=/verif/seeded/${prop}_$x; mkdir -p $d
+  d=/verif/seeded/${prop}_$as; mkdir -p $d
   cp $src/patch.diff $d/patch.diff; cp $src/*.go $d/; cp $src/demo.txt $d/demo.txt 2>/dev/null
-  python3 - "$prop" "$x" "$dest" "$pkg" "$re" "$det" "$src/meta.txt" <<'PY'
+  python3 - "$prop" "$as" "$dest" "$pkg" "$re" "$det" "$src/meta.txt" <<'PY'
 import json,sys
 prop,x,dest,pkg,re_,det,meta=sys.argv[1:8]
 m={"property":prop,"variant":x,"demo_file_destination":dest,"demo_cmd":"go test -vet=off -count=1 -run '%s' %s"%(re_,pkg),
@@ -46,7 +47,7 @@ m={"property":prop,"variant":x,"demo_file_destination":dest,"demo_cmd":"go test 
    "detected_by":det.split()}
 json.dump(m,open('/verif/seeded/%s_%s/meta.json'%(prop,x),'w'),indent=1)
 PY
-  echo "CONFIRMED -> /verif/seeded/${prop}_$x detected_by:[$det ]"
+  echo "CONFIRMED -> /verif/seeded/${prop}_$as detected_by:[$det ]"
 else
   echo "NOT CONFIRMED"
 fi
